@@ -45,7 +45,7 @@ Proof. exact parse_typeR_total. Qed.
 Print Assumptions C03_type_parser_with_recovery_is_total.
 
 (* the statement family (Parse/StmtModel.v): its loops -- over a dotted name and over comma-separated lists (renamings, privileges, columns,
-   names, roles), nested two deep -- are bounded by the input: the parser of these twenty statements never exhausts its fuel, on any token list *)
+   names, roles), nested two deep -- are bounded by the input: the parser of these twenty-four statements never exhausts its fuel, on any token list *)
 From Verif Require Import Parse.StmtModel Parse.StmtProofs.
 Theorem C03_statement_family_terminates : forall ts, ddl_body ts <> Some Fuel.
 Proof. exact ddl_body_nofuel. Qed.
